@@ -17,7 +17,7 @@ CONSTANTS
   FnOwn = 1
   BFn = 3
   EmitAllUpTo = 1
-  Sel = 20
+  Sel = 30
   KeepGoing = TRUE
 INVARIANT Inv
 CHECK_DEADLOCK FALSE
